@@ -159,14 +159,25 @@ func runAudit(id string, c *eng.Ctx, seed int) *auditResult {
 			res.Killed++
 			res.ByOperator[o.m.Op]++
 			res.ByRule[o.rule]++
-			if len(res.Killers) < 12 {
+			if len(res.Killers) < 25 {
 				res.Killers = append(res.Killers, desc+" → "+o.rule)
 			}
 		default:
 			res.Survived++
-			if len(res.Survivors) < 12 {
+			if len(res.Survivors) < 25 {
 				res.Survivors = append(res.Survivors, desc)
 			}
+		}
+	}
+	if dump := os.Getenv("LBCHECK_AUDIT_DUMP"); dump != "" {
+		var sb strings.Builder
+		for _, o := range outs {
+			fmt.Fprintf(&sb, "%s\t%s\t%s:%d\t%s\t%s\t%s\n", id, o.status, rel(o.m.File), o.m.Line, o.m.Func, o.m.Op, o.m.Desc+" "+o.rule)
+		}
+		f, err := os.OpenFile(dump, os.O_APPEND|os.O_CREATE|os.O_WRONLY, 0o644)
+		if err == nil {
+			f.WriteString(sb.String())
+			f.Close()
 		}
 	}
 	res.Seconds = float64(int(time.Since(t0).Seconds()*10)) / 10
